@@ -179,10 +179,9 @@ impl<T: ?Sized> RwLock<T> {
             }
         }
 
-        let g = RwLockReadGuard::new(self)?;
-        // finally we add rlock
+        // add rlock first, the guard inside a Poisoned error would release it too
         *r += 1;
-        Ok(g)
+        Ok(RwLockReadGuard::new(self)?)
     }
 
     fn read_unlock(&self) {
